@@ -9,6 +9,38 @@ from rig import geometry
 from rig.links import Links
 
 
+TILE = [(bx, by) for bx in range(8) for by in range(8) if bx - by <= 4 and by - bx <= 3]
+
+
+def _call(evs, name, x, y, f, *a, **kw):
+    """Call rig; an exception becomes a judged event (NoException), never the end of the run."""
+    try:
+        return True, f(*a, **kw)
+    except Exception as ex_:
+        evs.append(["raise", name, x, y, type(ex_).__name__])
+        return False, None
+
+
+def _board(evs, ox, oy, rx, ry, wrap_wh=None):
+    """One whole board's FPGA map: every chip of the board whose Ethernet chip is (ox, oy), every link."""
+    q = []
+    for (bx, by) in TILE:
+        x, y = bx + ox, by + oy
+        if wrap_wh:
+            x, y = x % wrap_wh[0], y % wrap_wh[1]
+        for k in Links:
+            ok, r = _call(evs, "spinn5_fpga_link", x, y, geometry.spinn5_fpga_link, x, y, k, rx, ry)
+            if ok and r is not None:
+                q.append([bx, by, int(k), int(r[0]), int(r[1])])
+    evs.append(["board", q])
+
+
+def _eths(evs, gen):
+    ok, r = _call(evs, "spinn5_eth_coords", 0, 0, lambda: [[int(a), int(b)] for a, b in gen])
+    if ok:
+        evs.append(["eths", r])
+
+
 def run(chk):
     rng = random.Random(chk.seed)
     chk.design("Spinn5Design", "Spinn5Design.cfg", expect_actions=("Move",))
@@ -20,26 +52,37 @@ def run(chk):
               (240, 240), (132, 24), (12, 156), (255, 250)]
     if not chk.quick:
         shapes += [(w, h) for w in range(1, 37, 5) for h in range(1, 37, 7)]
+    # "light" shapes (a few roots, fewer chips each): one dimension a multiple of 12 and the other ragged, wide and
+    # flat, and shapes drawn afresh for every seed
+    light = [(12, 8), (8, 12), (24, 20), (16, 36), (30, 5), (48, 7)]
+    light += [(rng.randint(1, 40), rng.randint(1, 40)) for _ in range(chk.pick(3, 30))]
+    light += [(12 * rng.randint(1, 4), rng.randint(1, 40)), (rng.randint(1, 40), 12 * rng.randint(1, 4))]
+    light = [sh for sh in light if sh not in shapes]
     roots = [(0, 0), (4, 8), (8, 4), (1, 0), (0, 1), (11, 11), (5, 7)]
     if chk.quick:
         roots += [(rng.randint(0, 11), rng.randint(0, 11)) for _ in range(5)]
     else:
         roots = [(x, y) for x in range(12) for y in range(12)]
     base_roots = roots
-    for (w, h) in shapes:
+    n_histories = 0
+    for (w, h) in shapes + light:
+        is_light = (w, h) in light
         # the root chip can be any chip of the machine, not only one of the first board's
         roots = base_roots + [(rng.randrange(w), rng.randrange(h)) for _ in range(chk.pick(2, 6))] + \
             ([(rng.randrange(w), rng.randrange(12, h))] if h > 12 else [])
         if max(w, h) > 100:
             roots = rng.sample(roots, 4) + roots[-1:]
+        if is_light:
+            roots = rng.sample(base_roots, chk.pick(2, 6)) + roots[len(base_roots):][:chk.pick(1, 3)]
+        nchips = chk.pick(60, 300) if is_light else chk.pick(150, 600)
         for (rx, ry) in roots:
             if (w, h) not in shapes[:5] and (rx, ry) not in base_roots[:7] and not chk.quick and rng.random() < 0.7:
                 continue
             evs = []
             wrap = (w % 12 == 0 and h % 12 == 0)
             chips = [(x, y) for x in range(w) for y in range(h)]
-            if len(chips) > chk.pick(150, 600):
-                chips = rng.sample(chips, chk.pick(150, 600))
+            if len(chips) > nchips:
+                chips = rng.sample(chips, nchips)
             for (x, y) in chips:
                 try:
                     ex, ey = geometry.spinn5_local_eth_coord(x, y, w, h, rx, ry)
@@ -48,42 +91,131 @@ def run(chk):
                     continue
                 evs.append(["eth", x, y, int(ex), int(ey)])
                 chk.note_case(("eth", x % 12, y % 12, w, h, rx, ry))
-                cx, cy = geometry.spinn5_chip_coord(x, y, rx, ry)
-                evs.append(["chip", x, y, int(cx), int(cy)])
+                ok, r = _call(evs, "spinn5_chip_coord", x, y, geometry.spinn5_chip_coord, x, y, rx, ry)
+                if ok:
+                    evs.append(["chip", x, y, int(r[0]), int(r[1])])
                 for k in Links:
-                    r = geometry.spinn5_fpga_link(x, y, k, rx, ry)
-                    evs.append(["fpga", x, y, int(k)] + ([0, 0, 0] if r is None else [1, int(r[0]), int(r[1])]))
+                    ok, r = _call(evs, "spinn5_fpga_link", x, y, geometry.spinn5_fpga_link, x, y, k, rx, ry)
+                    if ok:
+                        evs.append(["fpga", x, y, int(k)] + ([0, 0, 0] if r is None else [1, int(r[0]), int(r[1])]))
                 chk.note_case(("chip", x, y, rx, ry))
-            eths = [[int(a), int(b)] for a, b in geometry.spinn5_eth_coords(w, h, rx, ry)]
-            evs.append(["eths", eths])
+            # the Ethernet list is a generator: on the smaller machines an earlier caller has abandoned one half-way
+            # for the same arguments, and two more are alive at once and consumed in turn
+            history = w * h <= 1300 or rng.random() < 0.2
+            if history:
+                n_histories += 1
+                ok, g0 = _call(evs, "spinn5_eth_coords", 0, 0, geometry.spinn5_eth_coords, w, h, rx, ry)
+                if ok:
+                    _call(evs, "spinn5_eth_coords", 0, 0, lambda: [next(g0, None) for _ in range(rng.randint(1, 2))])
+            _eths(evs, geometry.spinn5_eth_coords(w, h, rx, ry))
             chk.note_case(("eths", w, h, rx, ry))
+            if history:
+                ok, r = _call(evs, "spinn5_eth_coords", 0, 0, lambda: (geometry.spinn5_eth_coords(w, h, rx, ry),
+                                                                        geometry.spinn5_eth_coords(w, h, rx, ry)))
+                if ok:
+                    ga, gb = iter(r[0]), iter(r[1])
+                    la, lb = [], []
+                    live = [(ga, la), (gb, lb)]
+
+                    def turns():
+                        while live:
+                            g, out = live[rng.randrange(len(live))]
+                            item = next(g, None)
+                            if item is None:
+                                live.remove((g, out))
+                            else:
+                                out.append(item)
+                    if _call(evs, "spinn5_eth_coords", 0, 0, turns)[0]:
+                        _eths(evs, la)
+                        _eths(evs, lb)
             # one whole board (the one whose Ethernet chip is at the root offset), every chip and link
-            q = []
-            for bx in range(8):
-                for by in range(8):
-                    if bx - by <= 4 and by - bx <= 3:
-                        for k in Links:
-                            r = geometry.spinn5_fpga_link(bx + rx, by + ry, k, rx, ry)
-                            if r is not None:
-                                q.append([bx, by, int(k), int(r[0]), int(r[1])])
-            evs.append(["board", q])
+            _board(evs, rx, ry, rx, ry)
+            # ... and one of the other boards of the machine (each of the three boards of a 12 x 12 cell, cells
+            # anywhere; on a whole torus the chips beyond the far edge are named by their wrapped coordinates)
+            dx, dy = rng.choice(((0, 0), (4, 8), (8, 4)))
+            ox = rx % 12 + dx + 12 * rng.randrange((w + 11) // 12)
+            oy = ry % 12 + dy + 12 * rng.randrange((h + 11) // 12)
+            _board(evs, ox, oy, rx, ry, (w, h) if wrap and rng.random() < 0.7 else None)
             traces.append(dict(w=w, h=h, rx=rx, ry=ry, ev=evs))
-    # standard system dimensions
+
+    # Short sessions in which the caller does what the loop above never does: one chip asked about under two or three
+    # root chips (differing in x only, in y only, or in both) one straight after the other, the functions in any order, the root chip left to its default (0, 0) or
+    # given by keyword.
+    n_pairs = chk.pick(60, 400)
+    for _ in range(n_pairs):
+        w, h = rng.choice(shapes + light)
+        x, y = rng.randrange(w), rng.randrange(h)
+        pair = [(0, 0) if rng.random() < 0.4 else (rng.randrange(w), rng.randrange(h))]
+        for _k in range(rng.randint(1, 2)):
+            # the next root chip differs from the last in x only, in y only, or in both
+            kind = rng.choice("xyb")
+            px, py = pair[-1]
+            qx = px if kind == "y" else (px + rng.randint(1, 11)) % max(w, 12)
+            qy = py if kind == "x" else (py + rng.randint(1, 11)) % max(h, 12)
+            if (qx % 12, qy % 12) != (px % 12, py % 12):
+                pair.append((qx, qy))
+        if rng.random() < 0.5:
+            pair.reverse()
+        for (rx, ry) in pair:
+            evs = []
+            ops = ["eth", "chip", "eths"] + ["fpga%d" % int(k) for k in rng.sample(list(Links), rng.randint(1, 6))]
+            rng.shuffle(ops)
+            for op in ops[:rng.randint(2, len(ops))]:
+                style = rng.choice(("pos", "kw", "default") if (rx, ry) == (0, 0) else ("pos", "kw"))
+                a, kw = {"pos": ((rx, ry), {}), "kw": ((), dict(root_y=ry, root_x=rx)), "default": ((), {})}[style]
+                if op == "eth":
+                    ok, r = _call(evs, "spinn5_local_eth_coord", x, y, geometry.spinn5_local_eth_coord,
+                                  x, y, w, h, *a, **kw)
+                    if ok:
+                        evs.append(["eth", x, y, int(r[0]), int(r[1])])
+                elif op == "chip":
+                    ok, r = _call(evs, "spinn5_chip_coord", x, y, geometry.spinn5_chip_coord, x, y, *a, **kw)
+                    if ok:
+                        evs.append(["chip", x, y, int(r[0]), int(r[1])])
+                elif op == "eths":
+                    if w * h <= 1300:
+                        ok, g = _call(evs, "spinn5_eth_coords", 0, 0, geometry.spinn5_eth_coords, w, h, *a, **kw)
+                        if ok:
+                            _eths(evs, g)
+                else:
+                    k = Links(int(op[4:]))
+                    ok, r = _call(evs, "spinn5_fpga_link", x, y, geometry.spinn5_fpga_link, x, y, k, *a, **kw)
+                    if ok:
+                        evs.append(["fpga", x, y, int(k)] + ([0, 0, 0] if r is None else [1, int(r[0]), int(r[1])]))
+                chk.note_case(("session", op, style, x, y, w, h, rx, ry))
+            if evs:
+                traces.append(dict(w=w, h=h, rx=rx, ry=ry, ev=evs))
+    # standard system dimensions: every count below 400; every multiple of three up to the largest machine built
+    # (1200 boards, 240 x 240) and a little beyond; further out, the counts where the squarest pair is hardest to
+    # find (squares, near-squares, twice and three times a prime) and counts that are not multiples of three
     evs = []
-    for n in list(range(0, chk.pick(400, 1500))) + [3 * k for k in range(130, chk.pick(300, 1000), 7)]:
+    top = chk.pick(400, 1500)
+    counts = list(range(0, top)) + list(range(3 * ((top + 2) // 3), chk.pick(1300, 3000), 3))
+    far = [3 * k * k for k in range(20, 32)] + [3 * k * (k + 1) for k in range(20, 31)] + \
+          [3 * 2 * p for p in (211, 307, 401, 499)] + [3 * 3 * p for p in (149, 211, 331)] + [3 * 997, 3 * 23 * 29]
+    far += [3 * rng.randrange(430, 1000) for _ in range(20)]
+    far += [rng.randrange(top, 3000) for _ in range(30)]
+    for n in counts + [n for n in far if n not in set(counts)]:
         try:
             dw, dh = geometry.standard_system_dimensions(n)
             evs.append(["dims", n, 1, int(dw), int(dh)])
         except ValueError:
             evs.append(["dims", n, 0, 0, 0])
+        except Exception as ex_:
+            evs.append(["raise", "standard_system_dimensions", n, 0, type(ex_).__name__])
         chk.note_case(("dims", n), nontrivial=(n % 3 == 0))
     for i in range(0, len(evs), 100):
         traces.append(dict(w=1, h=1, rx=0, ry=0, ev=evs[i:i + 100]))
 
-    chk.rule = ("machine shapes %d (multiples of 12 and ragged) x root offsets %d; per machine up to %d chips x "
-                "{local eth, chip coord, six FPGA links}, the Ethernet list, one whole board's FPGA map; board counts "
-                "0..%d; non-trivial = every case except board counts that are not multiples of three" %
-                (len(shapes), len(roots), chk.pick(150, 600), chk.pick(400, 1500)))
+    chk.rule = ("machine shapes %d (multiples of 12, ragged, and one dimension of each; %d of them with fewer roots and "
+                "chips, some drawn per seed) x root offsets up to %d; per machine up to %d chips x {local eth, chip coord, "
+                "six FPGA links}, the Ethernet list (on %d machines also after an abandoned generator and from two "
+                "generators consumed in turn), the FPGA map of the root's board and of one other board; %d groups of "
+                "short sessions about one chip under two or three root chips (differing in x, in y or in both), functions in any order, root by position / keyword "
+                "/ default; board counts 0..%d, every multiple of three to %d, hard and random counts to 3000; "
+                "non-trivial = every case except board counts that are not multiples of three" %
+                (len(shapes + light), len(light), len(base_roots) + chk.pick(3, 7), chk.pick(150, 600), n_histories,
+                 n_pairs, top - 1, chk.pick(1300, 3000)))
     chk.exhaustive = False
     for t in traces[:1] + traces[-1:]:
         chk.sample(dict(w=t["w"], h=t["h"], rx=t["rx"], ry=t["ry"], ev=t["ev"][:4] + t["ev"][-2:]))
